@@ -78,6 +78,7 @@ PROPS = {
     "C07": P(["PropC07"], ["C07", "C06"],
              "expiry: expired entries are invisible to every command of the table (reply and successor state equal those on the purged db), "
              "TTL reporting and per-command deadline rules + correspondence with keys in each lifetime phase (real clock, margins)",
+             findings=["exat-deadline-nanoseconds"],
              assumptions=SEQ_ASSUME + ["timer/clock accuracy of the Go runtime is trusted; observations keep >= 50 ms away from deadlines"]),
     "C09": P(["PropC09"], ["C09"],
              "MULTI/EXEC state machine: queued commands have no effect, EXEC runs the queue in order with one reply each and never blocks, "
